@@ -3,7 +3,7 @@
 //	parsers cover  -states st.ndjson [-bom] [-nl]      > cases.ndjson   (TLC transition cover -> inputs)
 //	parsers random -n N                                 > cases.ndjson   (grammar-aware generator + mutations)
 //	parsers harvest -repo /repo                         > cases.ndjson   (JSON-looking literals of the test suite)
-//	parsers exec   -set c01|c09|c03                     < cases.ndjson > trace.ndjson
+//	parsers exec   -set c01|c09|c09m|c03                    < cases.ndjson > trace.ndjson
 //	parsers probe                                       < probes.ndjson > result.ndjson  (completion probing)
 package main
 
@@ -53,6 +53,13 @@ var setC09 = [][2]string{{"oj.Parse", ""}, {"oj.ParseReader", "whole"}, {"oj.Val
 	{"oj.ParseReader", "dataerr"}, {"oj.ValidateReader1", "dataerr"}, {"oj.TokenizeLoad1", "dataerr"}, {"gen.ParseReader", "dataerr"},
 	{"oj.ParseReader", "half"}, {"oj.ValidateReader1", "half"}, {"oj.TokenizeLoad1", "half"}, {"gen.ParseReader", "half"},
 	{"oj.ParseReader", "dataerr:1"}, {"oj.ValidateReader1", "dataerr:1"}, {"oj.TokenizeLoad1", "dataerr:1"}, {"gen.ParseReader", "dataerr:1"}}
+
+// C09 on streams of documents (multi-document mode): callback and non-OnlyOne variants, whole and chunked.
+var setC09m = [][2]string{{"oj.Parse+cb", ""}, {"gen.Parse+cb", ""}, {"oj.Validate", ""}, {"oj.Tokenize", ""},
+	{"oj.ParseReader+cb", "whole"}, {"oj.ParseReader+cb", "1"}, {"oj.ParseReader+cb", "3"}, {"oj.ParseReader+cb", "dataerr:1"}, {"oj.Load+cb", "3"},
+	{"gen.ParseReader+cb", "whole"}, {"gen.ParseReader+cb", "1"}, {"gen.ParseReader+cb", "3"}, {"gen.ParseReader+cb", "half"},
+	{"oj.ValidateReader", "whole"}, {"oj.ValidateReader", "1"}, {"oj.ValidateReader", "3"},
+	{"oj.TokenizeLoad", "whole"}, {"oj.TokenizeLoad", "1"}, {"oj.TokenizeLoad", "3"}, {"oj.TokenizeLoad", "dataerr"}}
 
 type group struct {
 	As []string `json:"as"`
@@ -667,6 +674,8 @@ func execCases(args []string) {
 	set := setC01
 	if *setName == "c09" {
 		set = setC09
+	} else if *setName == "c09m" {
+		set = setC09m
 	}
 	var cases []plib.Case
 	readLines(os.Stdin, func(l []byte) {
@@ -708,6 +717,8 @@ func execCases(args []string) {
 				in := cases[i].Input()
 				if *setName == "c02" {
 					res[i] = plib.MarshalLine(traceLine{B: cases[i].B, Pad: cases[i].Pad, Src: cases[i].Src, O: observeValues(in, setC02)})
+				} else if *setName == "c09m" {
+					res[i] = plib.MarshalLine(traceLine{B: cases[i].B, Pad: cases[i].Pad, Src: cases[i].Src, O: observe(in, setC09m)})
 				} else if 0 < cases[i].Pad || (0 < len(in) && in[0] == 0xEF && *setName == "c01") {
 					// refill-aligned inputs and inputs that start like a BOM (which a reader may deliver in pieces): the
 					// reader variants are the point
